@@ -57,7 +57,7 @@ def run(ctx):
         segs += [[('R', None), ('W', a), ('S', None), ('W', None)] for a in range(0, ctx.pick(90, 260), stride + 1)]
         segs += [[('W', a), ('R', None), ('S', 2), ('W', 3), ('S', None), ('W', None)] for a in range(0, 40, 3)]
         n = writercheck.explore(ctx, wm, cfg, r_ops, set(), ('m1', 'm2'), bound=ctx.pick(1, 2),
-                                nrandom=ctx.pick(10, 300), limit=ctx.pick(40, 4000), sink=col, segments=segs)
+                                nrandom=ctx.pick(10, 150), limit=ctx.pick(40, 800), sink=col, segments=segs)
         ctx.evaluations += n
   verdicts = writersys.judge(ctx, col.traces, 'C04 traces')
   for i, tr in enumerate(col.traces):
